@@ -44,13 +44,23 @@ func NameCon(source []NodeType, edgeMaker NameEdgeMaker, conMaker NameConMaker, 
 	offset := 0
 
 	if input.After != nil {
+		beforePassed := false
 		for i, value := range source {
 			edge := edgeMaker(value, i)
+			if input.Before != nil && edge.GetCursor() == *input.Before {
+				beforePassed = true
+			}
 			if edge.GetCursor() == *input.After {
 				// remove all previous element including the "after" one
 				source = source[i+1:]
 				offset = i + 1
 				pageInfo.HasPreviousPage = true
+				if beforePassed {
+					// "before" designates the "after" element or one ahead of it: nothing lies
+					// between the two, and what follows "after" is outside the window
+					source = source[:0]
+					pageInfo.HasNextPage = true
+				}
 				break
 			}
 		}
